@@ -108,6 +108,14 @@ func (s *State) clone() *State {
 
 func (s *State) top() *ctl { return &s.stack[len(s.stack)-1] }
 
+// RootBlock is the block the outermost frame is currently in.
+func (s *State) RootBlock() *ssa.BasicBlock {
+	if len(s.stack) == 0 {
+		return nil
+	}
+	return s.stack[0].blk
+}
+
 // Depth is the number of frames on the control stack.
 func (s *State) Depth() int { return len(s.stack) }
 
